@@ -46,7 +46,7 @@ def catalogue(tier):
         ncell = sum(math.prod(s["sz"][a] for a in c) for c in s["cliques"])
         # pairwise distinct primes where they fit; larger structures get a generic pattern of small weights so that the joint
         # stays far below 2^30 (TLC integers)
-        p = iter(PRIMES) if (ncell <= len(PRIMES) and len(s["cliques"]) <= 4) else itertools.cycle([2, 3, 1, 5, 2, 1, 3])
+        p = iter(PRIMES) if (ncell <= len(PRIMES) and len(s["cliques"]) <= 4 and s["name"] != "fan") else itertools.cycle([2, 3, 1, 5, 2, 1, 3] if s["name"] != "fan" else [1, 2, 1, 3, 1, 1, 2])
         s["pots"] = []
         for c in s["cliques"]:
             n = 1
